@@ -30,6 +30,57 @@ extern "C" int sim_main(int argc, char** argv) {
       std::sort(a.begin(), a.end()); std::sort(b.begin(), b.end()); dump((int)rd, a, b);
       A.clear(); B.clear();
     }
+  } else if (kind == "ser") {
+    // serialize() followed at once by inserts: the image is the contents at the time of serialize(), the later inserts are not in it
+    std::string prefix = std::string(argv[5]) + "/img";
+    for (long rd = 0; rd < rounds; ++rd) {
+      std::vector<std::string> a, b;
+      ygm::container::map<int, int> A(world), B(world);
+      for (long k = me; k < nkeys; k += n) A.async_insert((int)k, (int)(100 * rd + 1));
+      if (me == (int)((seed + rd) % n)) for (int j = 0; j < 40; ++j) A.async_visit_if_exists(1000000 + j, [](const int&, int&) {});
+      A.serialize(prefix);
+      for (long k = me; k < nkeys; k += n) A.async_insert((int)(1000 + (k + 1) % nkeys), 7);
+      world.barrier();
+      B.deserialize(prefix);
+      B.for_all([&](const int& k, int& v) { a.push_back(std::to_string(k) + ":" + std::to_string(v)); });
+      A.for_all([&](const int& k, int& v) { b.push_back(std::to_string(k) + ":" + std::to_string(v)); });
+      std::sort(a.begin(), a.end()); std::sort(b.begin(), b.end()); dump((int)rd, a, b);
+    }
+  } else if (kind == "deser" || kind == "deserset" || kind == "deserbag") {
+    // deserialize() followed at once by inserts: they must survive (the load must not overwrite them on a slower rank)
+    std::string prefix = std::string(argv[5]) + "/img";
+    for (long rd = 0; rd < rounds; ++rd) {
+      std::vector<std::string> a, b;
+      if (kind == "deser") {
+        ygm::container::map<int, int> A(world), B(world);
+        for (long k = me; k < nkeys; k += n) A.async_insert((int)k, (int)(100 * rd + 1));
+        A.serialize(prefix);
+        if (me == (int)((seed + rd) % n)) for (int j = 0; j < 40; ++j) A.async_visit_if_exists(1000000 + j, [](const int&, int&) {});
+        B.deserialize(prefix);
+        for (long k = me; k < nkeys; k += n) B.async_insert((int)(1000 + (k + 1) % nkeys), 7);
+        world.barrier();
+        B.for_all([&](const int& k, int& v) { a.push_back(std::to_string(k) + ":" + std::to_string(v)); });
+      } else if (kind == "deserset") {
+        ygm::container::set<int> A(world), B(world);
+        for (long k = me; k < nkeys; k += n) A.async_insert((int)k);
+        A.serialize(prefix);
+        if (me == (int)((seed + rd) % n)) for (int j = 0; j < 40; ++j) A.async_erase(1000000 + j);
+        B.deserialize(prefix);
+        for (long k = me; k < nkeys; k += n) B.async_insert((int)(1000 + (k + 1) % nkeys));
+        world.barrier();
+        B.for_all([&](const int& k) { a.push_back(std::to_string(k)); });
+      } else {
+        ygm::container::bag<int> A(world), B(world);
+        for (long k = me; k < nkeys; k += n) A.async_insert((int)k);
+        A.serialize(prefix);
+        B.deserialize(prefix);
+        for (long k = me; k < nkeys; k += n) B.async_insert((int)(1000 + k));
+        world.barrier();
+        for (int x : B.gather_to_vector()) a.push_back(std::to_string(x));
+        if (me != 0) a.clear();
+      }
+      std::sort(a.begin(), a.end()); dump((int)rd, a, b);
+    }
   } else if (kind == "set") {
     ygm::container::set<int> A(world), B(world);
     for (long rd = 0; rd < rounds; ++rd) {
